@@ -158,6 +158,16 @@ Definition c16_ok (c : config) (r : request) (pre : hmap) (out : outcome) : bool
   | None => false
   end.
 
+(* "... and the same status whatever the reason": a preflight is answered either with the configured success status
+   or with THE failure status; a third status (say 431 for an over-long list, sent only after the origin and method
+   steps have passed) would tell reasons apart *)
+Definition spec_success_status (c : config) : Z := if (c_status c =? 0)%Z then 204%Z else c_status c.
+Definition c16_status_ok (c : config) (out : outcome) : bool :=
+  match o_status out with
+  | Some s => (s =? 403)%Z || (s =? spec_success_status c)%Z
+  | None => false
+  end.
+
 (* ---- C10 ---- names listed in a response's Vary field: split every value on ", " / "," and trim *)
 Definition trim_sp (s : bytes) : bytes :=
   let f := fix f (s : bytes) : bytes := match s with 32 :: r => f r | 9 :: r => f r | _ => s end in
